@@ -7,6 +7,7 @@ import (
 	"math/big"
 	"strings"
 	"testing"
+	"time"
 
 	lc "github.com/blinklabs-io/gouroboros/consensus"
 	"github.com/blinklabs-io/gouroboros/consensus/genesis"
@@ -489,6 +490,9 @@ type orderOpts struct {
 	consistency bool // transitivity on all triples + maximality over all permutations
 }
 
+// lazyCase builds the case description only when a failure is reported.
+type lazyCase func() map[string]any
+
 // rep41 reports a failure: rec.Fail inside rapid, rec.Violation in sweeps.
 type rep41 func(key, what string, cs any) bool
 
@@ -504,7 +508,9 @@ func TestC41(t *testing.T) {
 	)
 	maxN := 6
 
+	t0 := time.Now()
 	sweepC41(rec)
+	rec.SetExtra("sweep_wall_s", math.Round(time.Since(t0).Seconds()*100)/100)
 
 	rec.Check(func(rt *rapid.T) {
 		rep := func(key, what string, cs any) bool { return rec.Fail(rt, key, what, cs) }
@@ -568,8 +574,7 @@ func TestC41(t *testing.T) {
 // data (candidate slices, tips, VRF bytes, slot lists) must be unchanged.
 func checkTipSet(rep rep41, rec *evi.Recorder, sel *lc.PraosChainSelector, cfg selCfg, alt *selCfg, cs []*cand) (nontrivial bool) {
 	n := len(cs)
-	setDesc := descSet(cfg, cs)
-	caseObj := map[string]any{"set": setDesc}
+	caseObj := lazyCase(func() map[string]any { return map[string]any{"set": descSet(cfg, cs)} })
 	kn := kindName[cfg.kind]
 
 	tips := make([]lc.ChainTip, n)
@@ -595,7 +600,7 @@ func checkTipSet(rep rep41, rec *evi.Recorder, sel *lc.PraosChainSelector, cfg s
 		got := call(in)
 		for x, o := range order {
 			if len(in) != len(order) || in[x] != tips[o] {
-				rep("argument-mutated:candidates:"+what, fmt.Sprintf("%s changed the caller's candidate slice (position %d of permutation %v)", what, x, order), caseObj)
+				rep("argument-mutated:candidates:"+what, fmt.Sprintf("%s changed the caller's candidate slice (position %d of permutation %v)", what, x, order), caseObj())
 				break
 			}
 		}
@@ -627,7 +632,7 @@ func checkTipSet(rep rep41, rec *evi.Recorder, sel *lc.PraosChainSelector, cfg s
 	}
 	deepCheck := func(c selCfg) {
 		if got := sel.IsDeepFork(c.fork, c.tipBlock); got != c.deep() {
-			rep("IsDeepFork", fmt.Sprintf("IsDeepFork(fork blk %d, tip blk %d) with k=%d = %v, statement: deeper than k blocks = %v", c.fork.BlockNumber, c.tipBlock, c.k, got, c.deep()), caseObj)
+			rep("IsDeepFork", fmt.Sprintf("IsDeepFork(fork blk %d, tip blk %d) with k=%d = %v, statement: deeper than k blocks = %v", c.fork.BlockNumber, c.tipBlock, c.k, got, c.deep()), caseObj())
 		}
 		rec.Eval()
 	}
@@ -651,7 +656,9 @@ func checkTipSet(rep rep41, rec *evi.Recorder, sel *lc.PraosChainSelector, cfg s
 
 	// the same selector and tips under a second fork point / current tip
 	if alt != nil {
-		altObj := map[string]any{"set": descSet(*alt, cs), "first_config": setDesc}
+		altObj := lazyCase(func() map[string]any {
+			return map[string]any{"set": descSet(*alt, cs), "first_config": descSet(cfg, cs)}
+		})
 		deepCheck(*alt)
 		ac := mkChecks(*alt)[1]
 		runOrderChecksLight(rep, rec, ac, n, "alt-config:CompareWithDensity:"+kn, altObj, optsFor(*alt, true))
@@ -662,7 +669,7 @@ func checkTipSet(rep rep41, rec *evi.Recorder, sel *lc.PraosChainSelector, cfg s
 		for i := 0; i < n; i++ {
 			for j := 0; j < n; j++ {
 				if again := sgn(checks[ci].cmp(i, j)); again != first[ci][i][j] {
-					rep("history:"+checks[ci].name+":"+kn, fmt.Sprintf("%s(c%d,c%d) was %d, and %d when asked again after selection calls and calls with another fork point", checks[ci].name, i, j, first[ci][i][j], again), caseObj)
+					rep("history:"+checks[ci].name+":"+kn, fmt.Sprintf("%s(c%d,c%d) was %d, and %d when asked again after selection calls and calls with another fork point", checks[ci].name, i, j, first[ci][i][j], again), caseObj())
 				}
 				rec.Eval()
 			}
@@ -674,11 +681,11 @@ func checkTipSet(rep rep41, rec *evi.Recorder, sel *lc.PraosChainSelector, cfg s
 			continue
 		}
 		if !bytes.Equal(c.vrf, c.vrfSnap) || !bytes.Equal(c.tip.VRFOutput(), c.vrfSnap) || c.tip.BlockNumber() != c.block || c.tip.Slot() != c.slot {
-			rep("argument-mutated:tip", fmt.Sprintf("candidate c%d changed during comparison/selection", i), caseObj)
+			rep("argument-mutated:tip", fmt.Sprintf("candidate c%d changed during comparison/selection", i), caseObj())
 		}
 		for x := range c.slotsSnap {
 			if len(c.slots) != len(c.slotsSnap) || c.slots[x] != c.slotsSnap[x] {
-				rep("argument-mutated:tip-slots", fmt.Sprintf("slot list of candidate c%d changed", i), caseObj)
+				rep("argument-mutated:tip-slots", fmt.Sprintf("slot list of candidate c%d changed", i), caseObj())
 				break
 			}
 		}
@@ -688,7 +695,7 @@ func checkTipSet(rep rep41, rec *evi.Recorder, sel *lc.PraosChainSelector, cfg s
 			}
 			return countInWindow(c.slotsSnap, cfg.fork.Slot, cfg.window)
 		}() {
-			rep("BlocksInWindow:"+kindName[c.kind], fmt.Sprintf("BlocksInWindow of candidate c%d disagrees with the interface contract after the calls", i), caseObj)
+			rep("BlocksInWindow:"+kindName[c.kind], fmt.Sprintf("BlocksInWindow of candidate c%d disagrees with the interface contract after the calls", i), caseObj())
 		}
 	}
 	// density decides against length in some pair?
@@ -723,16 +730,16 @@ func matrixOf(rec *evi.Recorder, oc orderCheck, n int) [][]int {
 	return m
 }
 
-func withPair(caseObj map[string]any, i, j int) map[string]any {
+func withPair(caseObj lazyCase, i, j int) map[string]any {
 	o := map[string]any{"i": i, "j": j}
-	for k, v := range caseObj {
+	for k, v := range caseObj() {
 		o[k] = v
 	}
 	return o
 }
 
 // pairLaws: antisymmetry (includes cmp(a,a) == 0) and agreement with the statement's order.
-func pairLaws(rep rep41, rec *evi.Recorder, oc orderCheck, m [][]int, keyBase string, caseObj map[string]any) {
+func pairLaws(rep rep41, rec *evi.Recorder, oc orderCheck, m [][]int, keyBase string, caseObj lazyCase) {
 	n := len(m)
 	for i := 0; i < n; i++ {
 		for j := 0; j < n; j++ {
@@ -756,11 +763,11 @@ func pairLaws(rep rep41, rec *evi.Recorder, oc orderCheck, m [][]int, keyBase st
 }
 
 // selectionLaw: the candidate selected from the given arrival order is a member that nobody beats.
-func selectionLaw(rep rep41, rec *evi.Recorder, oc orderCheck, m [][]int, p []int, keyBase string, caseObj map[string]any, maximal bool) (int, bool) {
+func selectionLaw(rep rep41, rec *evi.Recorder, oc orderCheck, m [][]int, p []int, keyBase string, caseObj lazyCase, maximal bool) (int, bool) {
 	idx, ok := oc.pref(p)
 	rec.Eval()
 	if !ok {
-		rep("preferred-not-a-candidate:"+keyBase, fmt.Sprintf("selection over permutation %v returned a value that is not one of the candidates", p), caseObj)
+		rep("preferred-not-a-candidate:"+keyBase, fmt.Sprintf("selection over permutation %v returned a value that is not one of the candidates", p), caseObj())
 		return -1, false
 	}
 	if !maximal {
@@ -784,7 +791,7 @@ func selectionLaw(rep rep41, rec *evi.Recorder, oc orderCheck, m [][]int, p []in
 }
 
 // runOrderChecksLight: pair laws plus the selection law for the given and the reversed order only.
-func runOrderChecksLight(rep rep41, rec *evi.Recorder, oc orderCheck, n int, keyBase string, caseObj map[string]any, opts orderOpts) {
+func runOrderChecksLight(rep rep41, rec *evi.Recorder, oc orderCheck, n int, keyBase string, caseObj lazyCase, opts orderOpts) {
 	m := matrixOf(rec, oc, n)
 	pairLaws(rep, rec, oc, m, keyBase, caseObj)
 	fwd, rev := make([]int, n), make([]int, n)
@@ -796,7 +803,7 @@ func runOrderChecksLight(rep rep41, rec *evi.Recorder, oc orderCheck, n int, key
 }
 
 // runOrderChecks checks one comparison function over one candidate set.
-func runOrderChecks(rep rep41, rec *evi.Recorder, oc orderCheck, n int, keyBase string, caseObj map[string]any, opts orderOpts) (st orderStats, m [][]int) {
+func runOrderChecks(rep rep41, rec *evi.Recorder, oc orderCheck, n int, keyBase string, caseObj lazyCase, opts orderOpts) (st orderStats, m [][]int) {
 	m = matrixOf(rec, oc, n)
 	pairLaws(rep, rec, oc, m, keyBase, caseObj)
 	// transitivity of the weak order on all ordered triples
@@ -1020,7 +1027,7 @@ func checkGenesisFragments(rt *rapid.T, rec *evi.Recorder, rep rep41) {
 			return -1, false
 		},
 	}
-	_, first := runOrderChecks(rep, rec, oc, n, "genesis-fragments", caseObj, orderOpts{consistency: true})
+	_, first := runOrderChecks(rep, rec, oc, n, "genesis-fragments", func() map[string]any { return caseObj }, orderOpts{consistency: true})
 	_ = gs.Preferred(nil)
 	for i := 0; i < n; i++ {
 		for j := 0; j < n; j++ {
